@@ -1,5 +1,5 @@
 """C01 -- memoized evaluation returns exactly what plain execution would return."""
-from contracts import api, api_stages, inspect_call, structures_utils, introspect_compose, sigs, auth_type, retrieve_rec, introspect_fun, annotations
+from contracts import api, api_stages, inspect_call, structures_utils, introspect_compose, sigs, auth_type, retrieve_rec, introspect_fun, introspect_class, annotations
 from ._api_common import TRUSTED_API, owner, _AnyApiClause
 
 ID = "C01"
@@ -14,7 +14,7 @@ owns = owner("C01")
 
 
 def specs():
-    return [c() for c in api.SPECS] + [c() for c in structures_utils.SPECS] + [c() for c in introspect_compose.SPECS] + [c() for c in sigs.SPECS] + [c() for c in inspect_call.SPECS] + [c() for c in auth_type.SPECS] + [c() for c in retrieve_rec.SPECS] + [c() for c in introspect_fun.SPECS] + [c() for c in annotations.SPECS]
+    return [c() for c in api.SPECS] + [c() for c in structures_utils.SPECS] + [c() for c in introspect_compose.SPECS] + [c() for c in sigs.SPECS] + [c() for c in inspect_call.SPECS] + [c() for c in auth_type.SPECS] + [c() for c in retrieve_rec.SPECS] + [c() for c in introspect_fun.SPECS] + [c() for c in introspect_class.SPECS] + [c() for c in annotations.SPECS]
 
 
 def bounded(tier, seed, pr):
